@@ -66,6 +66,11 @@ func buildLayers(w *world, thorough bool) []layer {
 			}
 			return out
 		}})
+	// K: several creates in one call tree
+	kp := createPrograms()
+	km := createMatrix()
+	ls = append(ls, layer{name: "K", what: fmt.Sprintf("%d programs creating 1, 2 (all ordered pairs) or 3 (all ordered triples of the 7 basic init codes) contracts in one frame: CREATE/CREATE2 x 19 init codes (no jump, jump low, jump beyond position 40, jump into PUSH data, jump to a JUMPDEST where a sibling has PUSH data, returning jumping runtime code that is then CALLed, 12 init codes that themselves CREATE a jumping child with/without own jumps), with and without a jump of the creating frame; x %d configurations (as factory contract through Call, as depth-0 init code through evm.Create)", len(kp), len(km)),
+		n: len(kp), gen: func(i int) (string, []byte) { return kp[i].name, kp[i].code }, configs: func(int) []config { return km }})
 	// B1 and the short sequences first: cheap and diverse
 	full := fullMatrix()
 	ls = append(ls, byteLayer(1, full))
@@ -821,7 +826,7 @@ func main() {
 	r.Set("violation_cases", total)
 	r.Set("workers", nw)
 	r.Set("rule", "every program of every layer x every configuration of that layer is executed on the real EVM twice from equal pre-states (observed run on a fresh EVM with probing StateDB + tracer; plain run on a long-lived EVM re-used after Reset()+SetToken() as app/state_transition.go does; further runs only to classify a difference); "+
-		"oracles: no panic / no process death (confirmed by running the case alone in a fresh process); interpreter steps <= gas + gas/256 + 2000, steps inside UTXO change-rate queries (counted apart) <= gas + 2000; gas left (+ fee refund the application adds) <= gas supplied; both runs identical in return data, gas, error, fee refunds, balance records, "+
+		"oracles: no panic / no process death (confirmed by running the case alone in a fresh process); interpreter steps <= gas + gas/256 + 2000, steps inside UTXO change-rate queries (counted apart) <= gas + 2000; gas left (+ fee refund the application adds) <= gas supplied; every executed JUMP/JUMPI verdict equals a fresh analysis of the code actually running (independent reference, jumpref.go); both runs identical in return data, gas, error, fee refunds, balance records, "+
 		"explicit world delta and state root; a failing outermost frame leaves an empty delta and the pre-state root; every nested frame that fails is reverted and the world after RevertToSnapshot equals the world at its Snapshot; "+
 		"non-trivial = behaviour signatures (error class, changed field classes, frames, return size, reverts, balance records) other than an immediate stack underflow / invalid opcode")
 	r.Assume("world = 20 fixed accounts (caller, program account, 10 fixture contracts, precompiles 1-4, small addresses 0x00/0x01/0x20/0xff, one token id); block context fixed (number 10, time 1000); gas price 1")
